@@ -332,4 +332,10 @@ theorem witness_delete_after_freeze :
     (simulate sc1 u1 m1 t1).toOption.map (fun s => (s.cfg.get "t.k", (s.cfg.delete "t").get "t.k", (s.cfg.delete "t").get "s.k")) =
       some (some "300", none, some "10") := by decide
 
+/-- "managers first", read from the working tree on every run: `setup_components` sets up
+`self._managers + self._components` in that order, and the context adds the managers before the components -/
+theorem gen_managers_first :
+    Viv.Gen.setupComponentsOperands = ["_managers", "_components"] ∧
+    Viv.Gen.managersAddedBeforeComponents = true := by decide
+
 end Viv.Props.C20
